@@ -51,6 +51,18 @@ def families():
     F["digits"] = lambda n: "int x = " + "1" * n + ";"
     F["digits_sep"] = lambda n: "int x = 1" + "'1" * n + "z;"
     F["hex_digits_then_dot"] = lambda n: "int x = 0x" + "f'" * n + ".;"
+    # VALID literals with long digit runs: a rule tried before the one that matches must fail fast on them
+    F["hex_digits_valid"] = lambda n: "unsigned x = 0x" + "F" * n + ";"
+    F["hex_digits_sep_valid"] = lambda n: "unsigned x = 0x" + "F'" * n + "F;"
+    F["hex_digits_then_p"] = lambda n: "double x = 0x" + "aB" * n + "p;"
+    F["hex_float_valid"] = lambda n: "double x = 0x" + "F" * n + "." + "F" * n + "p3;"
+    F["bin_digits_valid"] = lambda n: "unsigned x = 0b" + "10" * n + ";"
+    F["bin_digits_sep_valid"] = lambda n: "unsigned x = 0b" + "1'" * n + "0;"
+    F["bin_digits_then_2"] = lambda n: "unsigned x = 0b" + "1" * n + "2;"
+    F["oct_digits_then_8"] = lambda n: "unsigned x = 0" + "7" * n + "8;"
+    F["float_digits_then_e"] = lambda n: "double x = 1." + "1" * n + "e;"
+    F["float_exp_digits"] = lambda n: "double x = 1e" + "1" * n + "q;"
+    F["dec_digits_sep_suffix"] = lambda n: "auto x = 1" + "'234" * n + "ull_km;"
     F["float_like"] = lambda n: "double d = " + "1" * n + "e+;"
     F["float_dots"] = lambda n: "double d = " + "1." * n + ";"
     F["suffix_soup"] = lambda n: "int x = 1" + "uUlL" * n + ";"
